@@ -202,6 +202,9 @@ func c16AllocSizes(c *engine.Ctx) {
 						if b, ok := lc.Call.Value.(*ssa.Builtin); ok && (b.Name() == "len" || b.Name() == "cap") {
 							continue
 						}
+						if helperNonNegative(lc, 0) {
+							continue
+						}
 					}
 					bounded := false
 					for _, l := range st.Lits {
@@ -708,4 +711,52 @@ func freeVarDerefed(fv *ssa.FreeVar) bool {
 		}
 	}
 	return false
+}
+
+// helperNonNegative: every return path of the (small, repo) callee yields a value that is a non-negative constant,
+// a length, or carries a literal establishing v >= 0 — a clamp helper.
+func helperNonNegative(call *ssa.Call, depth int) bool {
+	cf := engine.CalleeFn(call)
+	if cf == nil || cf.Blocks == nil || cf.Pkg == nil || !engine.IsRepoPkg(cf.Pkg.Pkg.Path()) || depth > 1 {
+		return false
+	}
+	q := &engine.PathQuery{Fn: cf, Sink: engine.IsReturn}
+	states, err := q.Run()
+	if err != nil || len(states) == 0 {
+		return false
+	}
+	for _, st := range states {
+		r := st.Sink.(*ssa.Return)
+		if len(r.Results) == 0 {
+			return false
+		}
+		v := st.Resolve(r.Results[0])
+		if z, ok := engine.ConstInt(v); ok {
+			if z < 0 {
+				return false
+			}
+			continue
+		}
+		okv := false
+		for _, l := range st.Lits {
+			x, y, op := l.X, l.Y, l.Op
+			if !engine.SameExpr(x, v) {
+				if engine.SameExpr(y, v) {
+					x, y, op = y, x, flipOrd(op)
+				} else {
+					continue
+				}
+			}
+			if !l.Val {
+				op = negOrd(op)
+			}
+			if z, ok := engine.ConstInt(y); ok && ((op == token.GEQ && z >= 0) || (op == token.GTR && z >= -1)) {
+				okv = true
+			}
+		}
+		if !okv {
+			return false
+		}
+	}
+	return true
 }
